@@ -36,3 +36,17 @@ Definition file_op (o : op) : bool :=
   | HClose _ | HStat _ | HSync _ => true
   | _ => false
   end.
+
+(* every path argument of the call is an absolute name (begins with the separator) *)
+Definition op_names_abs (o : op) : bool :=
+  match o with
+  | Create p | Mkdir p _ | MkdirAll p _ | Open p | OpenFile p _ _ | Remove p | RemoveAll p | Stat p
+  | Chmod p _ | Chown p _ _ | Chtimes p _ => is_rooted p
+  | Rename p q => is_rooted p && is_rooted q
+  | _ => true
+  end.
+
+(* a directory node carries no bytes (MemMapFs lets a program write through a handle it opened on
+   a directory with write access; such a node then reports 42 bytes but holds others) *)
+Definition dir_no_bytes (s : mst) (k : str) : Prop :=
+  forall f nd, lookup s k = Some f -> get_node s f = Some nd -> ndir nd = true -> ndata nd = [].
